@@ -15,3 +15,27 @@ open CalmVerif.Props.C07
 #check @remap_tables_capture_free
 #print axioms top_level_unchanged
 #check @top_level_unchanged
+#print axioms prewalk_leak_invariant
+#check @prewalk_leak_invariant
+#print axioms remap_injective_visible
+#check @remap_injective_visible
+#print axioms scopeOK_spelled
+#check @scopeOK_spelled
+#print axioms only_identifiers_change_walk
+#check @only_identifiers_change_walk
+#print axioms identifier_fragment_shape
+#check @identifier_fragment_shape
+#print axioms kf07a_scopeAgree_fails
+#check @kf07a_scopeAgree_fails
+#print axioms kf07a_binding_not_preserved
+#check @kf07a_binding_not_preserved
+#print axioms kf07b_scopeAgree_fails
+#check @kf07b_scopeAgree_fails
+#print axioms kf07b_binding_not_preserved
+#check @kf07b_binding_not_preserved
+#print axioms kf07c_scopeAgree_fails
+#check @kf07c_scopeAgree_fails
+#print axioms kf07c_binding_not_preserved
+#check @kf07c_binding_not_preserved
+#print axioms ok_program_preserved
+#check @ok_program_preserved
